@@ -30,7 +30,9 @@ def aliasing_cases():
             out.append('obj;str:x6f6c64;%s;str:x6e6577;%s;detp:0:2;repo%s:0:k2:2;size:0;geto:0:x6b6579;del:0' % (mk(1), mk(2), cs))
             # moved back and forth under its own key
             out.append('obj;null;%s;deta:0:0;arr;addo:3:k1:1;deta:3:0;addo:0:k1:1;del:3;del:0' % mk(1))
-    return [Case('hist DX 0 ' + o, {'tags': ['directed', 'key-aliases-own-key']}) for o in out]
+    res = [Case('hist DX 0 ' + o, {'tags': ['directed', 'key-aliases-own-key']}) for o in out]
+    res += coregen.setbool_cases()
+    return res
 
 def generate(ctx):
     rng = random.Random(ctx['seed'] * 104729 + 7)
